@@ -193,6 +193,27 @@ def name_variants(rng, T, n):
         out.append(s)
     return out
 
+MUNCH_CHARS = [' ', '  ', '\t', '\n', '\x0b', '\x0c', '\r', '\x1c', '\x1f', '\x85', '\xa0', '\u1680', '\u2003', '\u2028', '\u202f', '\u3000', '\u200b', '\ufeff',
+               'A', 'Z', 'a', 'z', '0', '-', '(', ')', ',', ';', 'é', 'É', 'å', 'Å', '\u212b', '\u212a', 'ß', 'ẞ', 'Σ', 'σ', 'ς', 'İ', 'ı', 'I', 'ǅ', 'ǆ', 'Ǆ', 'ł', 'Ł', 'ø', 'Ø',
+               'đ', 'æ', '\u0301', '\u0308', 'a\u0301', '\u0958', '\uac00', 'ﬁ', 'ａ', 'Ａ', '①', '\u1e9b', '\u0345', '\u1fb3', '\u1f88', 'ǰ', '\U0001d400', '\U00010400',
+               '\x00', '\x7f', '\x80', '\xad', 'ə', 'Ə', 'ğ', 'ş', 'ç', 'ñ', 'õ', 'ų', 'ž', 'Ž', 'ḃ', 'ṩ', 'ǟ']
+
+def munch_strings(rng, T, n):
+    names = T['names']
+    out = list(MUNCH_CHARS)
+    for _ in range(n):
+        r = rng.random()
+        if r < 0.4:
+            a = rng.choice(names)
+            s = ''.join((rng.choice(MUNCH_CHARS) if rng.random() < 0.2 else c) for c in a)
+        elif r < 0.7:
+            s = ''.join(rng.choice(MUNCH_CHARS) for _ in range(rng.randint(0, 10)))
+        else:
+            s = ''.join(chr(rng.choice([rng.randrange(0x20, 0x250), rng.randrange(0x250, 0x3000), rng.randrange(0xE000, 0x11000), rng.randrange(0x1e00, 0x2200)]))
+                        for _ in range(rng.randint(1, 8)))
+        out.append(s)
+    return out
+
 # ------------------------------------------------------------------ check_language cases
 
 OPTS = [None, None, None, None, 'pl', 'de', 'de_DE', 'pol', 'de_AT.UTF-8@euro', 'sr@latin', 'pt_BR', 'en_GB', 'ca@valencia', 'deu_CH']
